@@ -10,6 +10,7 @@ func init() {
 		Assume:  []string{"injectivity of index→address (toPrefix arithmetic: C20; toIP: C05.LINMAP)", "bitset's own correctness"},
 		Run: func(c *Ctx) {
 			ruleAlloc(c, "C04.", map[string]bool{"LOCK": true, "TESTSET": true, "SAMEINDEX": true, "SIBLINGS": true})
+			ruleSizeCap(c, "C04.") // the block handed out must not extend beyond the one bit reserved for it
 			c.R.Floor("C04.ALLOC.LOCK", 14)
 			c.R.Floor("C04.ALLOC.TESTSET", 3)
 			c.R.Floor("C04.ALLOC.ROLLBACK", 1)
@@ -40,6 +41,7 @@ func init() {
 			ruleAlloc(c, "C07.", map[string]bool{"HINT": true})
 			ruleLinMap(c, "C07.") // a hint at either end of the range must convert to its own index
 			ruleHintCallers(c, "C07.HINT.CALLERS")
+			ruleArith(c, "C07.") // the hinted index converts back to the hinted block only if AddPrefixes neither wraps nor reports a spurious overflow
 			c.R.Floor("C07.HINT.FIRST", 4)
 			c.R.Floor("C07.HINT.CALLERS", 2)
 		},
@@ -117,6 +119,7 @@ func init() {
 			ruleDBSchema(c, "C03.")
 			ruleRangeHandler(c, "C03.", map[string]bool{"C03": true})
 			ruleDBLoad(c, "C03.")
+			ruleRangeRestart(c, "C03.RANGE.RESTART") // "none lost": every loaded binding is kept and re-marked, or start-up aborts
 			c.R.Floor("C03.DB.SCHEMA-AGREE", 5)
 			c.R.Floor("C03.DB.CODEC", 4)
 			c.R.Floor("C03.DB.PERSIST-BEFORE-REPLY", 1)
